@@ -709,6 +709,10 @@ loop:
 					// only send go away on idle stream not on an already-closed stream
 					if fr.Stream() > sc.lastID {
 						sc.writeGoAway(fr.Stream(), ProtocolError, "RST_STREAM on idle stream")
+
+						if canCloseAfterGoAway() {
+							break loop
+						}
 					}
 
 					continue
@@ -723,6 +727,10 @@ loop:
 					// its own, for the life of the connection.
 					if pry, ok := fr.Body().(*Priority); ok && pry.Stream() == fr.Stream() {
 						sc.writeGoAway(fr.Stream(), ProtocolError, "stream that depends on itself")
+
+						if canCloseAfterGoAway() {
+							break loop
+						}
 					}
 
 					continue
@@ -751,6 +759,13 @@ loop:
 						}
 
 						sc.writeGoAway(fr.Stream(), StreamClosedError, "frame on closed stream")
+
+						// A connection error ends the connection once the streams
+						// the GOAWAY vouches for are done. Nothing else may ever
+						// arrive to trigger that check, so it is made here too.
+						if canCloseAfterGoAway() {
+							break loop
+						}
 					}
 
 					continue
@@ -785,6 +800,11 @@ loop:
 
 				if fr.Stream() < sc.lastID {
 					sc.writeGoAway(fr.Stream(), ProtocolError, "stream ID is lower than the latest")
+
+					if canCloseAfterGoAway() {
+						break loop
+					}
+
 					continue
 				}
 
